@@ -39,10 +39,10 @@ def getCollectionValue(collection, what, pos=None):
     elif collection.isMap() and what == "keys":
         return sorted(collection.value.keys())
     elif collection.isMap() and what == "values":
-        return [collection.value[k] for k in sorted(collection.value.keys())]
+        return [value for _, value in collection.getSortedEntries()]
     elif collection.isMap():
-        return convertEntries({k: collection.value[k]
-                               for k in sorted(collection.value.keys())})
+        return [ValueList().addItem(key).addItem(value)
+                for key, value in collection.getSortedEntries()]
     elif collection.isObject() and what == "values":
         return list(collection.value.values())
     elif collection.isObject() and what == "entries":
@@ -99,8 +99,7 @@ def invoke(fn, names_, args, environment, pos):
         if isinstance(arg, NodeSpread):
             argvalue = arg.evaluate(environment)
             if argvalue.isMap():
-                for key in argvalue.getSortedKeys():
-                    value = argvalue.value[key]
+                for key, value in argvalue.getSortedEntries():
                     values.append(value)
                     if key.isString():
                         names.append(key.value)
@@ -943,7 +942,7 @@ class NodeFor:
             return result
 
         if lst.isMap():
-            values = [(k, lst.value[k]) for k in sorted(lst.value.keys())]
+            values = lst.getSortedEntries()
             result = TRUE
             for key, value in values:
                 val = value
